@@ -101,6 +101,16 @@ func (l lockAPI) TryLock(w bool) (func(), bool) {
 
 var parkPoints = []string{"broadcast.lock", "broadcast.unlocked"}
 
+// deadlineLike is a context whose Err() reports DeadlineExceeded once it is done.
+type deadlineLike struct{ context.Context }
+
+func (d deadlineLike) Err() error {
+	if d.Context.Err() != nil {
+		return context.DeadlineExceeded
+	}
+	return nil
+}
+
 func run(t *testing.T, cs Case) *ev.Verdict {
 	v := &ev.Verdict{}
 	canon, _ := json.Marshal(struct {
@@ -293,6 +303,11 @@ func body(c *sched.Ctl, cs Case, v *ev.Verdict) {
 					// a context that is cancelled with a cause: Err() is still context.Canceled
 					cctx, ccancel := context.WithCancelCause(context.Background())
 					ctx, cancel = cctx, func() { ccancel(fmt.Errorf("cancel-cause-%d", a.id)) }
+				}
+				if a.id%3 == 1 {
+					// a context that ends like an expired deadline: Err() is DeadlineExceeded, the
+					// documented answer of a waiter that gives up is still context.Canceled
+					ctx = deadlineLike{ctx}
 				}
 				a.cancel = cancel
 				if op.Pre {
